@@ -71,7 +71,8 @@ def gen_damage(rng, kinds):
     plan = []
     for kind in kinds:
         for _ in range(rng.choice((1, 1, 2))):
-            plan.append({'kind': kind, 'pick': rng.random(), 'arg': rng.choice((1, 2, 3, 7)), 'where': rng.choice(('top', 'nested', 'beside'))})
+            plan.append({'kind': kind, 'pick': rng.random(), 'arg': rng.choice((1, 2, 3, 7)), 'where': rng.choice(('top', 'nested', 'beside')),
+                         'cancel': rng.random() < 0.3, 'neg': rng.random() < 0.3})
     return plan
 
 
@@ -96,6 +97,8 @@ def run_case(case):
             expected[fp(k)] = (k, fp(v))
         # file-backed rows per cache
         damaged_keys = set()
+        bumps = {}
+        cancel = {}     # cache dir -> {'count': .., 'size': ..}: what check(fix=True) will change through its row repairs
         report = []     # (category, path substring) that must be reported
         used_files = set()
         for d in case['damage']:
@@ -115,6 +118,9 @@ def run_case(case):
                 full = os.path.join(root, filename)
                 key = cache.disk.get(dbkey, raw)
                 if kind == 'delete':
+                    acc = cancel.setdefault(root, {'count': 0, 'size': 0})
+                    acc['count'] -= 1
+                    acc['size'] -= os.path.getsize(full)
                     os.remove(full)
                     damaged_keys.add(fp(key))
                     report.append(('file not found', filename))
@@ -135,6 +141,7 @@ def run_case(case):
                         new = size + d['arg']
                     if new == size:
                         continue
+                    cancel.setdefault(root, {'count': 0, 'size': 0})['size'] += new - size
                     report.append(('wrong file size', filename))
                     damaged_keys.add(fp(key))
                     if mode == 4 and kind == 'truncate':
@@ -164,10 +171,19 @@ def run_case(case):
                 os.makedirs(full)
                 report.append(('empty directory', rel))
             elif kind in ('count', 'size'):
+                delta = -d['arg'] if d.get('neg') else d['arg']
+                if d.get('cancel'):
+                    # a counter that is wrong by exactly what the row repairs of this cache will change
+                    c = cancel.get(root, {'count': 0, 'size': 0})[kind]
+                    if c:
+                        delta = c
                 con = sqlite3.connect(os.path.join(root, 'cache.db'))
-                con.execute('UPDATE Settings SET value = value + ? WHERE key = ?', (d['arg'], kind))
+                con.execute('UPDATE Settings SET value = value + ? WHERE key = ?', (delta, kind))
                 con.commit()
                 con.close()
+                bumps[(root, kind)] = bumps.get((root, kind), 0) + delta
+        for (root, kind), net in sorted(bumps.items()):
+            if net:
                 report.append(('Settings.%s' % kind, ''))   # counter messages carry no path
         probes['damage_items'] = len(report)
 
